@@ -200,7 +200,12 @@ def codec_row(full_in: dict, kind: str) -> dict:
         return row
     row["lens"] = [(len(f) + 1) // 2 for f in frags]
     try:
-        back = S.fragz_to_full_sched(frags)
+        # the decoded schedule belongs to the caller: what he does to it (Schedule itself rewrites zone_idx in place,
+        # applications edit switch-points) must not show in the next decode of the same fragments - the row carries
+        # the *second* decode, taken after the first result has been edited in place
+        first = S.fragz_to_full_sched(frags)
+        _scribble(first)
+        back = S.fragz_to_full_sched(list(frags))
         row["out"] = flat(back)
         row["zout"] = back["zone_idx"]
     except Exception as err:  # noqa: BLE001
@@ -218,6 +223,25 @@ def codec_row(full_in: dict, kind: str) -> dict:
             c["exc"] = exc_name(err)
         row["cmds"].append(c)
     return row
+
+
+def _scribble(x: Any) -> None:
+    """Edit a decoded schedule in place, at every level (keys kept, values changed)."""
+    if isinstance(x, dict):
+        for k in list(x):
+            if isinstance(x[k], (dict, list)):
+                _scribble(x[k])
+            elif isinstance(x[k], bool):
+                x[k] = not x[k]
+            elif isinstance(x[k], (int, float)):
+                x[k] = x[k] + 1
+            elif isinstance(x[k], str):
+                x[k] = "ZZ"
+    elif isinstance(x, list):
+        for v in x:
+            _scribble(v)
+        if x:
+            x.pop()
 
 
 def validate_parallel(module: str, items: list, *, procs: int = 4, extra_env: dict | None = None,
